@@ -11,6 +11,10 @@ open RkVerif.C12 Driver
 structure St where
   buf : BSys Nat Nat := {}
   tv : TVal Nat := {}
+  kind : String := "i"
+
+/-- token of the value-initialised payload (`assignz`): printed as 0 for int, as "unset" (empty) for the others -/
+def zeroTok : Nat := 1000000007
 
 def showElems (l : List (Nat × Nat)) : String :=
   if l.isEmpty then "-" else " ".intercalate (l.map fun (p, x) => toString p ++ "." ++ toString x)
@@ -66,7 +70,8 @@ def valOracle (N : Nat) (s : VSys Nat) : Bool :=
   (((s.log.map Obs.k).zip ((s.log.map Obs.k).drop 1)).all fun (a, b) => decide (a ≤ b))
 
 def stepSt (s : St) : List String → St × String
-  | ["tb_new", _] => ({ s with buf := {} }, "ok")
+  | ["tb_new", k] => ({ s with buf := {}, kind := k }, "ok")
+  | ["push_fail", _, _] => (s, if s.kind == "i" then "bad-op" else "bad_alloc")
   | ["push", p, x] | ["pushm", p, x] =>
       match p.toNat?, x.toNat? with
       | some p, some x => ({ s with buf := (s.buf.exec (.push p x)).1 }, "ok")
@@ -83,14 +88,15 @@ def stepSt (s : St) : List String → St × String
       match s.buf.exec .empty with
       | (_, .bool b) => (s, bit b)
       | _ => (s, "model-bug")
-  | ["tv_new", _, c0] => ({ s with tv := { current := c0.toNat? } }, "ok")
+  | ["tv_new", k, c0] => ({ s with tv := { current := c0.toNat? }, kind := k }, "ok")
+  | ["assignz"] => ({ s with tv := s.tv.assign zeroTok }, "ok")
   | ["assign", x] =>
       match x.toNat? with
       | some x => ({ s with tv := s.tv.assign x }, "ok")
       | none => (s, "bad-op")
   | ["update"] => let (t, r) := s.tv.update; ({ s with tv := t }, bit r)
-  | ["get"] => (s, showVal s.tv.get)
-  | ["ref"] => (s, showVal s.tv.get)
+  | ["get"] => (s, if s.tv.get == some zeroTok then (if s.kind == "i" then "0" else "unset") else showVal s.tv.get)
+  | ["ref"] => (s, if s.tv.get == some zeroTok then (if s.kind == "i" then "0" else "unset") else showVal s.tv.get)
   | ["mt_buf", _, p, n, _, seed] =>
       match p.toNat?, n.toNat?, seed.toNat? with
       | some P, some N, some sd =>
